@@ -17,6 +17,8 @@ def run(chk):
     chk.floor_count("C01.R6:deferred-update call sites", n, 7)
     backtest_rules.run_loop(chk, "C08")
     core_rules.refresh_before_trade(chk, "C08")
+    from . import c04
+    c04.universe_accessor(chk, "C08")  # no series handed out extends beyond now: the windowed universe and who may write its cache
     from .algo_equiv import check_equiv
     from .c18 import REFS as REPORT_REFS
     for mod, cls, name, src, what in REPORT_REFS:
